@@ -30,6 +30,10 @@ type vrtRun struct {
 	Failed   []string `json:"failed"`
 	Outcome  string   `json:"outcome"`
 	Detail   string   `json:"detail"`
+	SchedTurn int     `json:"sched_turn"`
+	SchedLen  int     `json:"sched_len"`
+	Desync    bool    `json:"sched_desync"`
+	Trace     []int   `json:"sched_trace,omitempty"`
 }
 
 var vrtS *vrtRun
@@ -191,6 +195,7 @@ type vrtSched struct {
 	next      int
 	wg        sync.WaitGroup
 	desync    bool
+	arrivals  []int // thread ids in the order they arrived at points (debugging)
 }
 
 const (
@@ -269,6 +274,9 @@ func vrtPoint() {
 	}
 	if s.running == id {
 		s.running = -1
+	}
+	if len(s.arrivals) < 4000 {
+		s.arrivals = append(s.arrivals, id)
 	}
 	start := time.Now()
 	for {
